@@ -5,6 +5,8 @@ package main
 // ndJsonDeserialize yields exactly the specification's state value.
 
 import (
+	"crypto/sha256"
+	"encoding/hex"
 	"fmt"
 	"math/big"
 	"strings"
@@ -255,6 +257,22 @@ func (w *World) Project(tr *Track) (res J) {
 		return false
 	})
 	res["fgrants"] = fgrants
+	// digests of the four custom modules' whole KV stores (what no query shows is still compared, C14)
+	dig := J{}
+	for name, key := range map[string]string{"ent": enttypes.StoreKey, "wrk": wrkchaintypes.StoreKey, "bcn": beacontypes.StoreKey, "str": streamtypes.StoreKey} {
+		h := sha256.New()
+		it := ctx.KVStore(a.GetKey(key)).Iterator(nil, nil)
+		for ; it.Valid(); it.Next() {
+			k, v := it.Key(), it.Value()
+			h.Write([]byte{byte(len(k) >> 8), byte(len(k))})
+			h.Write(k)
+			h.Write([]byte{byte(len(v) >> 24), byte(len(v) >> 16), byte(len(v) >> 8), byte(len(v))})
+			h.Write(v)
+		}
+		it.Close()
+		dig[name] = hex.EncodeToString(h.Sum(nil)[:8])
+	}
+	res["dig"] = dig
 	if !w.InBlock {
 		// a panicking query server is an observation (C17), not a harness failure
 		func() {
